@@ -71,6 +71,12 @@ func (g *qGen) genSelectJoin(w *qWorld, depth int) qQuery {
 	}
 	defer func() { w.ctes = nil }()
 	src := g.source(w, depth)
+	usingShape := ""
+	if g.r.Intn(6) == 0 {
+		if u, ok := g.usingSrc(w); ok {
+			src, usingShape = u, "+using"
+		}
+	}
 	cols := shiftCols(src.cols)
 	var items, citems []string
 	n := 1 + g.r.Intn(4)
@@ -88,6 +94,7 @@ func (g *qGen) genSelectJoin(w *qWorld, depth int) qQuery {
 	if with != "" {
 		q.shape += "+cte"
 	}
+	q.shape += usingShape
 	q.sql = with + "SELECT " + strings.Join(items, ", ") + " FROM " + src.sql + wh
 	q.coq = fmt.Sprintf("(Q (BSelect %s %s None None %s false) [] None None)", src.coq, cwh, coqList(citems))
 	if src.joins > 0 {
@@ -266,7 +273,10 @@ func (g *qGen) genOrder(w *qWorld, t *qTable) qQuery {
 func (g *qGen) genSortableTable(name string, nrows int, coqName string) *qTable {
 	t := &qTable{name: name, coq: coqName}
 	ncols := 2 + g.r.Intn(2)
-	kinds := []string{"int", "num", "plaintext", "date"}
+	kinds := []string{"int", "num", "plaintext", "date", "bignum"}
+	// integers beyond 2^53 next to floats: the comparator must compare them exactly (finding int-float-beyond-2p53)
+	bignum := []string{"9007199254740992", "9007199254740993", "9007199254740992.0", "9007199254740994.0", "9007199254740991", "-9007199254740993", "-9007199254740992.0",
+		"9223372036854775807", "9223372036854775808", "9223372036854775806", "-9223372036854775808", "-9223372036854775809", "1e19", "-1e19", "0.5", "1", "1.5", "2", "0", "-0.5", "3e0"}
 	plain := []string{"a", "A", " a", "b", "B ", "abc", "ABC", "Abc", "x:y", "", "ab c", "あ", "à", "z", "zz", "Z"}
 	profs := make([]string, ncols)
 	for c := 0; c < ncols; c++ {
@@ -284,6 +294,8 @@ func (g *qGen) genSortableTable(name string, nrows int, coqName string) *qTable 
 			switch profs[c] {
 			case "plaintext":
 				p = plain
+			case "bignum":
+				p = bignum
 			case "int":
 				if small {
 					p = qProfiles["int"]
